@@ -84,7 +84,7 @@ def equiv_check(kinds, what):
         mreps = K.run_legs(mfns, parallel=3)
         tabs = [K.emit_tables(prop, "tab-pairs", dict(CFGS="U_C01_pairs", HI=1200 if q else "Len(Cfgs)")),
                 K.emit_tables(prop, "tab-singles", dict(CFGS="U_C01_singles", HI=1500 if q else "Len(Cfgs)")),
-                K.emit_tables(prop, "tab-la", dict(CFGS="U_C04", SYMS="Syms_C04", HI=600 if q else "Len(Cfgs)"))]
+                K.emit_tables(prop, "tab-la", dict(CFGS="U_C04", SYMS="Syms_C04", HI=600 if q else 6000))]
         n = 150 if q else 3000
         sources = ["tables:" + t for t in tabs] + [f"random:c01:{n}:{seed}", f"random:c04:{n}:{seed}",
                                                      f"random:c06:{n}:{seed}", "classpairs", "corpus"]
@@ -211,6 +211,8 @@ def gt_check(gen_legs, profile, n_quick, n_thorough, rule):
         for (nm, mod, cfg, params, neg) in MODEL_LEGS.get(prop, lambda q: [])(q):
             fns.append(lambda nm=nm, mod=mod, cfg=cfg, params=params, neg=neg: K.run_model_leg(prop, nm, mod, cfg, params, expect_violation=neg, workers=4))
         fns.append(lambda: K.run_trace_leg(prop, "T-" + profile, profile, n, seed, shards=6))
+        if prop in ("C09", "C10"):
+            fns.append(lambda: K.run_drift_leg(prop, "D-IterImpl", 200 if q else 5000, seed))
         reps = K.run_legs(fns, parallel=4)
         return finish(K, prop, tier, seed, t0, "model_checking", reps, None, ASSUME_COMMON, rule)
     return chk
@@ -229,7 +231,7 @@ LEGS = {
     "C06": lambda q, seed: [
         ("G-scan", dict(CFGS="U_C06", SYMS="Syms_C06", MAXLEN=3 if q else 4, MOD=2 if q else 1, SEED=seed)),
         ("G-hist", dict(CFGS="U_C06", SYMS="Syms_C06", MAXLEN=2, OPS=HIST, MAXDEPTH=3 if q else 4, DRAIN="FALSE",
-                        NITERS=2, PEEKNS="{1, 2}", MOD=400 if q else 60, SEED=seed)),
+                        NITERS=2, PEEKNS="{1, 2}", MOD=400 if q else 120, SEED=seed)),
     ],
     "C07": lambda q, seed: [
         ("G-nullable", dict(CFGS="U_C01_pairs", MAXLEN=3, OPS='{"next", "peek", "setoffset"}', MAXDEPTH=4, DRAIN="FALSE",
@@ -243,17 +245,17 @@ LEGS = {
     ],
     "C10": lambda q, seed: [
         ("G-offsets", dict(CFGS="U_C10", SYMS="Syms_C06", MAXLEN=3, OPS='{"next", "peek", "advance", "setoffset", "setmode"}',
-                           MAXDEPTH=4 if q else 5, DRAIN="FALSE", PEEKNS="{1, 2}", MOD=24 if q else 3, SEED=seed)),
+                           MAXDEPTH=4 if q else 5, DRAIN="FALSE", PEEKNS="{1, 2}", MOD=24 if q else 6, SEED=seed)),
     ],
     "C11": lambda q, seed: [
         ("G-peek", dict(CFGS="U_C10", SYMS="Syms_C06", MAXLEN=3, OPS='{"next", "peek", "setmode"}', MAXDEPTH=4 if q else 5,
-                        DRAIN="FALSE", PEEKNS="{0, 1, 2, 3}", MOD=8 if q else 1, SEED=seed)),
+                        DRAIN="FALSE", PEEKNS="{0, 1, 2, 3}", MOD=8 if q else 2, SEED=seed)),
         ("G-peek-graphs", dict(CFGS="U_C06", SYMS="Syms_C06", MAXLEN=3, OPS='{"next", "peek"}', MAXDEPTH=3, DRAIN="FALSE",
                                PEEKNS="{1, 3}", MOD=60 if q else 6, SEED=seed)),
     ],
     "C12": lambda q, seed: [
         ("G-iters", dict(CFGS="U_C10", SYMS="Syms_C06", MAXLEN=2, OPS=HIST, MAXDEPTH=4 if q else 5, DRAIN="FALSE", NITERS=3,
-                         PEEKNS="{1}", SECOND="{2, 7}", MOD=3 if q else 1, SEED=seed)),
+                         PEEKNS="{1}", SECOND="{2, 7}", MOD=3 if q else 3, SEED=seed)),
     ],
 }
 
@@ -493,6 +495,10 @@ def check_C14(K, prop, tier, seed, t0):
     if zero:
         K.log("\n".join(zero)); raise K.ToolError("MC_CacheConc: an action was never taken (vacuous model)")
     K.log(f"[model] CacheConc: {mdist} distinct states, invariants and liveness hold")
+    # unbounded-length safety of the critical section: an inductive invariant discharged by Apalache
+    from concurrent.futures import ThreadPoolExecutor
+    apa_pool = ThreadPoolExecutor(max_workers=1)
+    apa_fut = apa_pool.submit(K.run_apalache_inductive, prop, "I-CacheInd", "CacheInd", "ConstInit", "Init", "IndInv")
     # T: sampled real schedules
     n = 120 if q else 2500
     rec = os.path.join(vroot, "threads")
@@ -512,8 +518,7 @@ def check_C14(K, prop, tier, seed, t0):
     # (i) the cache event log is a behaviour of CacheConc's critical section
     d2 = K.leg_dir(prop, "cachetrace")
     with open(os.path.join(d2, "tc.cfg"), "w") as f:
-        f.write("INIT TCInit\nNEXT TCNext\nCONSTANTS\n  Threads = {1}\n  Keys = {1}\n  BadKeys = {}\n  ProgSpace = {}\n"
-                "POSTCONDITION CacheTraceAccepted\nCHECK_DEADLOCK FALSE\n")
+        f.write("INIT TCInit\nNEXT TCNext\nPOSTCONDITION CacheTraceAccepted\nCHECK_DEADLOCK FALSE\n")
     ctrace = os.path.join(rec, "cache_trace.ndjson")
     pr = subprocess.run(K.tlc_cmd(1, os.path.join(d2, "md"), "tc.cfg", "Trace_Cache.tla"), cwd=d2, env=K.tlc_env({"VERIF_CACHE_TRACE": ctrace}, deque=True),
                         stdout=subprocess.PIPE, stderr=subprocess.STDOUT, text=True)
@@ -538,9 +543,11 @@ def check_C14(K, prop, tier, seed, t0):
     files.extend(viols)
     K.log(f"[thread-results] {stats['accepted'] + stats['rejected']} thread traces / {stats['events']} events, {stats['rejected']} rejected")
     unknown = K.report_violations(prop, files, len(files))
+    apa = apa_fut.result()
     with open(os.path.join(rec, "meta.json")) as f:
         meta = json.load(f)
-    cov = dict(states=mdist + (cdist or 0) + stats["states"], transitions=mgen + (cgen or 0) + stats["states"],
+    cov = dict(inductive_invariant={k: apa[k] for k in ("module", "invariant", "obligations", "discharged", "checker_cmd", "wall_s")},
+               states=mdist + (cdist or 0) + stats["states"], transitions=mgen + (cgen or 0) + stats["states"],
                traces_validated_against_impl=stats["accepted"] + stats["rejected"] + 1, evaluations=info["cache_events"] + stats["events"],
                distinct_nontrivial=info["keys"],
                samples=[{"schedule": meta[0].get("schedule"), "thread": meta[0].get("thread"), "events": meta[0]["last_event"] - meta[0]["first_event"] + 1,
